@@ -123,7 +123,12 @@ def run(tier, seed):
     for u in unconfirmed[:50]:
         inconclusive.append('%s[%s]: solver model for "%s" did not reproduce on the real runtimes (uninterpreted float function)' % (u['program'], u['mode'], u['what']))
     inconclusive = sorted(set(inconclusive))
-    cov = dict(
+    loss, gap_keys = common.coverage_gate(PID, tier, inconclusive)
+    for ln in loss:
+        print(ln)
+        machinery_bad = True
+    cov = dict(model_gap_keys=gap_keys, coverage_loss=loss,
+        
         programs=len(nprog), disagreements_checked=replays,
         samples=samples or [dict(note='no program analysed')],
         corpus_groups=groups, steps_bmc=steps, inductive_steps=1,
